@@ -10,10 +10,13 @@
                                bound quadratic, and C20_linear_bound_refuted_named shows that no linear bound holds)
      C20_bookmarks_distinct    proved in full (any grammar, any options, either repeat test)
      C20_names_distinct, C20_root_first_partial (least index first)   proved
-     C20_links_resolve, C20_no_placeholder, C20_root_first, C20_tokens_shown   REFUTED by witnesses; their positive parts
-                               are covered by correspondence only (see notes/C20.md). *)
+     C20_links_resolve, C20_no_placeholder, C20_root_first, C20_tokens_shown   REFUTED by witnesses.
+     Positive side, on the decidable class `dag_class` (acyclic, F-20 shapes excluded; Model/DiagramClass.v), last section:
+     C20_terminates_partial (linear bound |G|+1), C20_links_resolve_partial, C20_root_first_class_partial   proved;
+     no-placeholder and tokens-shown on the class are covered by correspondence only (see notes/C20.md). *)
 From Coq Require Import List NArith Arith Bool Lia.
-From PP Require Import Model.Str Model.Diagram Model.DiagramEx Gen.GenDiagram Proofs.DiagramProofs.
+From PP Require Import Model.Str Model.Diagram Model.DiagramEx Model.DiagramClass Gen.GenDiagram Proofs.DiagramProofs
+  Proofs.DiagramPos.
 Import ListNotations.
 Local Open Scope nat_scope.
 
@@ -181,3 +184,62 @@ Example C20_tokens_shown_instance :
     forallb (fun x => match n_kids (gnode G_paren_named x) with [] => shows_terminal out (n_dname (gnode G_paren_named x)) | _ => true end)
             (map fst G_paren_named) = true.
 Proof. eexists; eexists. split; [vm_compute; reflexivity | reflexivity]. Qed.
+
+(* ------------------------------------------------------------------------------------------------ the positive side *)
+(* On the decidable class Model/DiagramClass.v `dag_class G o root` -- acyclic graph (`dag_b`), no element that converts
+   to nothing (hidden, unnamed Empty, childless And/Or/Each), customNames pairwise distinct and none equal to "...",
+   root not a by-passed Forward/Located, one-slot containers with one (repeated) child -- i.e. with every shape of the
+   F-20 family excluded, the converter is proved, for EVERY graph of the class, every option tuple and either repeat
+   test, to terminate within |G|+1 nested calls, to resolve every link to exactly one diagram, and to put the root's
+   diagram first.  Proofs/DiagramPos.v: invariants of the ConverterState over the traversal (conv_B).
+   tools/props/c20.py evaluates `dag_class` (this very definition, by vm_compute) on every dumped graph, reports how many
+   are in the class, and alarms when the implementation violates the property on one of them.
+   Missing (no theorem yet on the class): no-placeholder and tokens-shown; recursion through named Forwards. *)
+
+(* (1) termination with a linear bound: every acyclic graph (no further condition) converts within |G|+1 nested
+   _to_diagram_element calls, i.e. 2(|G|+2) Python frames; the result is the same for every sufficient fuel.
+   _partial: cyclic graphs are not covered (C20_named_partial covers those whose cycles contain a stopper). *)
+Theorem C20_terminates_partial : forall G o fx root, dag_b G = true ->
+  exists out st, (forall fuel, length G + 1 <= fuel -> to_railroad G o fx root fuel = (Ok out, st)) /\
+                 frames (c_maxdepth st) <= 2 * (length G + 2).
+Proof. exact dag_terminates. Qed.
+
+(* (2) every NonTerminal of every output diagram carries the name of an output diagram and its href is "#" + the
+   bookmark of that diagram, and of no other.  _partial: class `dag_class` only (refuted outside: C20_links_resolve_refuted). *)
+Theorem C20_links_resolve_partial : forall G o fx root, dag_class G o root = true ->
+  forall fuel out st, to_railroad G o fx root fuel = (Ok out, st) ->
+  forall od t hf, In od out -> In (t, hf) (item_nts (od_item od)) ->
+    exists od', In od' out /\ od_name od' = t /\ hf = 35%N :: od_bookmark od' /\
+                forall od'', In od'' out -> hf = 35%N :: od_bookmark od'' -> od'' = od'.
+Proof. exact dag_links_resolve. Qed.
+
+(* (3) the output is not empty, its first diagram is the root's: index 1 (converted first), named with the root's
+   customName ("" when it has none), and every other diagram has a larger index.
+   _partial: class `dag_class` only (refuted outside: C20_root_first_refuted, C20_root_first_refuted_empty). *)
+Theorem C20_root_first_class_partial : forall G o fx root, dag_class G o root = true ->
+  forall fuel out st, to_railroad G o fx root fuel = (Ok out, st) ->
+  exists od rest, out = od :: rest /\ od_index od = 1 /\ od_name od = cname G root /\
+                  forall e, In e rest -> 2 <= od_index e.
+Proof. exact dag_root_first. Qed.
+
+(* non-vacuity on a dumped graph: (item | Group(item)[...]) + item + word with item = (Opt('a') + word)("item"),
+   word = Word("abc")("word") -- shared named elements, one worth extracting, one a token -- is in the class; it converts
+   with fuel |G|+1 = 9 into 3 diagrams ("", "item", "word") at depth 5, all links resolve, the root is first. *)
+Example C20_class_instance :
+  dag_class G_dag default_opts 0 = true /\
+  exists out st, to_railroad G_dag default_opts false 0 (length G_dag + 1) = (Ok out, st) /\
+    map od_name out = [[]; [105; 116; 101; 109]; [119; 111; 114; 100]]%N /\ map od_index out = [1; 3; 9] /\
+    c_maxdepth st = 5 /\ links_resolve out = true /\ root_first out = true /\ no_placeholder out = true.
+Proof. split; [vm_compute; reflexivity|]. eexists; eexists. split; [vm_compute; reflexivity|]. vm_compute. repeat split. Qed.
+
+(* the class excludes every witness of the F-20 family above *)
+Example C20_class_excludes :
+  dag_class G_paren default_opts 0 = false /\ dag_class G_paren_named default_opts 0 = false /\
+  dag_class G_fwd_opt default_opts 0 = false /\ dag_class G_fwd_self default_opts 0 = false /\
+  dag_class G_json default_opts 0 = false /\ dag_class G_quad default_opts 0 = false /\
+  dag_class G_reentered default_opts 0 = false /\        (* cycles *)
+  dag_class G_ellipsis default_opts 0 = false /\         (* "..." *)
+  dag_class G_opt_empty default_opts 0 = false /\ dag_class G_group_named_empty default_opts 0 = false /\  (* Empty *)
+  dag_class G_same_name default_opts 0 = false /\        (* equal customNames *)
+  dag_class G_fwd_root default_opts 0 = false.           (* by-passed root *)
+Proof. vm_compute. repeat split. Qed.
